@@ -45,6 +45,7 @@ type stressResult struct {
 	SpaceWaits int64 // times a producer (receiver or delivering processor) had to wait for ring space
 	DataWaits  int64
 	Retained   int64
+	DupFlagged int64
 	Inconcl    string
 }
 
@@ -232,6 +233,10 @@ func runStress(cfg stressCfg) *stressResult {
 				if q > 0 {
 					pk.ID = id.next()
 					acks++
+					if r.Intn(6) == 0 {
+						pk.Dup = true // a retransmission flag on a packet the broker sees for the first time
+						atomic.AddInt64(&res.DupFlagged, 1)
+					}
 				}
 				c.SendPacket(pk)
 				atomic.AddInt64(&published, 1)
